@@ -61,6 +61,9 @@ def canon(obj, drop: set | frozenset = frozenset()):
             if isinstance(prop, (xs.TimestampAttributeProperty, xs.CurrentTimestampAttributeProperty)) \
                     and val is not None:
                 out[name] = 'T:%d' % math.floor(val * 1000 + 1e-4)
+            elif val is not None and type(prop).__name__ in ('DurationAttributeProperty', 'NodeDurationProperty') \
+                    and isinstance(val, (int, float, Decimal)):
+                out[name] = 'U:%d' % round(float(val) * 1e6)     # durations: int 0 and float 0.0 are the same value
             elif val is None or val == [] or val == ():
                 continue
             else:
